@@ -90,7 +90,7 @@ CLAIMED = {
             'being stopped at instruction k, and followed by a different job in the same world; each execution is validated by TLC '
             'against Lang.tla starting from Lang\'s initial state, and the compiled program is compared before/after. Histories also run '
             'through one ScriptJob.load_string object, after a failed run of the same job, and after a stop request that arrived just as '
-            'the previous run finished (through Agent._execute_and_call), and after a stop request made while the job was idle. Histories contain calls of built-in functions.',
+            'the previous run finished (through Agent._execute_and_call), and after a stop request made while the job was idle. Histories contain calls of built-in functions, and scripts that read a name on a path where the current run has not yet assigned it (Lang: None), so that a variable surviving a run is visible.',
             'Stops are injected by wrapping Machine._fn_table. Thread-level effects of stop on the real clock are C09/C10.',
             'DESIGN.md section 6, C17'),
     'C13': ('model_checking', 'TLC-generated discovery/expiry histories (LightDir.tla) replayed into the real LightSet; every getter compared by TLC after every step',
@@ -99,7 +99,7 @@ CLAIMED = {
             'on a small alphabet; seeded random walks give long histories over a larger one. Each history is replayed into a real '
             'LightSet over SimLan with virtual time; after every step all public getters, the group/location each Light reports '
             'and next/prev from every probe (present, absent, below, above) are recorded and compared by TLC with LightDir\'s answers '
-            '(TraceLightDir.tla).',
+            '(TraceLightDir.tla), and so are the VM\'s own iteration instructions (VmDiscover.disc / dnext / discm / dnextm: where an iteration over lights, groups or a group\'s members starts and what it steps to from every probe value, both directions).',
             'time.time in bardolph.controller.light is virtual; devices are SimLan objects. Long histories are random walks, not '
             'TLC simulations (TLC\'s simulator is too slow on this alphabet).',
             'DESIGN.md section 6, C13'),
@@ -189,7 +189,7 @@ CLAIMED = {
             'Every input goes through ScriptJob.load_string (watchdog for hangs); accepted texts are executed by the real loader and VM '
             'over SimLan with an instruction budget. TLC checks per record: finishes, no exception, accept-with-program or '
             'reject-with-line-numbered-message-and-no-program, injected rule violation => rejected, accepted => every instruction of the program has the operands the VM dereferences and no internal VM fault, '
-            'execute() never raises. The rule classes are the ones the property lists (break outside loop, assign to / redefine macro, '
+            'execute() never raises; a rejected text also leaves no program in a job that held an accepted one before; on a class of texts known to be well defined (every light-loop spelling over the lights in use) a VM stop of any class counts (CleanRuns). The rule classes are the ones the property lists (break outside loop, assign to / redefine macro, '
             'undefined names, nested routine, missing end, unbalanced { [ (, malformed/impossible time pattern).',
             'Level exploration: for token soup, mutants and noise the specification contributes only the outcome contract; breadth '
             'comes from generation. Internal VM faults are recognised by message; type errors caused by a script\'s own values and '
